@@ -396,6 +396,12 @@ func collectArgs(
 			continue
 		}
 
+		// an argument starts a new expression: its leading `[` opens an array
+		// literal, the value evaluated last (the receiver) is not indexed
+		if nextT.IsTargetIdentifier("[") {
+			m.parser.SetLastEvaluatedT(base.MakeNil())
+		}
+
 		// x.abc.def.ghi
 		zaorik := m.ctx.SuspendMultiValue()
 		err =
